@@ -187,7 +187,27 @@ theorem locate_sorted {tb : Tables} (h : tb.AllSorted) (k : NodeKind) (lname : S
 
 /-- the test both bodies apply to an entry: the mode fits and the whole pattern matches -/
 def entryMatches (am : AltMatch) (mode : Nat) (m : MPD) : Bool :=
+  modeOk mode m.tmpl.mode && entryHit am m
+
+/-- the whole-pattern version (unchanged code) -/
+def entryMatchesW (am : AltMatch) (mode : Nat) (m : MPD) : Bool :=
   modeOk mode m.tmpl.mode && (wholeScore am m.tmpl).isSome
+
+theorem entryMatches_old (h : Generated.C10.perAlternativeMatch = false) (am : AltMatch) (mode : Nat) :
+    entryMatches am mode = entryMatchesW am mode := by
+  funext m; simp [entryMatches, entryMatchesW, entryHit, h]
+
+theorem entryMatches_alt (h : Generated.C10.perAlternativeMatch = true) (am : AltMatch) (mode : Nat) (m : MPD) :
+    entryMatches am mode m = (modeOk mode m.tmpl.mode && am m.tmpl m.alt) := by
+  simp [entryMatches, entryHit, h]
+
+theorem reportStep_old (h : Generated.C10.perAlternativeMatch = false) (am : AltMatch) (mode : Nat) :
+    reportStep am mode = reportStepOld am mode := by
+  funext s m; simp [reportStep, h]
+
+theorem reportStep_alt (h : Generated.C10.perAlternativeMatch = true) (am : AltMatch) (mode : Nat) :
+    reportStep am mode = reportStepAlt am mode := by
+  funext s m; simp [reportStep, h]
 
 theorem findQuietList_eq_find (am : AltMatch) (mode : Nat) (l : List MPD) :
     findQuietList am mode l = (l.find? (entryMatches am mode)).map (·.tmpl) := by
@@ -195,7 +215,7 @@ theorem findQuietList_eq_find (am : AltMatch) (mode : Nat) (l : List MPD) :
   | nil => rfl
   | cons m rest ih =>
     simp only [findQuietList, List.find?, entryMatches]
-    cases h : (modeOk mode m.tmpl.mode && (wholeScore am m.tmpl).isSome) <;> simp [ih]
+    cases h : (modeOk mode m.tmpl.mode && entryHit am m) <;> simp [ih]
 
 /-! ## the reporting body on a sorted list -/
 
@@ -203,8 +223,8 @@ theorem findQuietList_eq_find (am : AltMatch) (mode : Nat) (l : List MPD) :
 `find_reporting_eq_quiet_partial` -/
 structure RInv (am : AltMatch) (mode : Nat) (pre : List MPD) (s : RState) : Prop where
   prev : ∀ pm, s.prev = some pm → pm ∈ pre ∧ modeOk mode pm.tmpl.mode = true
-  none_case : pre.find? (entryMatches am mode) = none → s.best = none ∧ s.bestPrio = none ∧ s.conflicts = []
-  some_case : ∀ f, pre.find? (entryMatches am mode) = some f →
+  none_case : pre.find? (entryMatchesW am mode) = none → s.best = none ∧ s.bestPrio = none ∧ s.conflicts = []
+  some_case : ∀ f, pre.find? (entryMatchesW am mode) = some f →
     s.bestPrio = some f.prioOrDefault ∧
       ((s.conflicts = [] ∧ s.best = some f) ∨ (∃ b tl, s.conflicts = f :: tl ∧ s.best = some b))
 
@@ -235,8 +255,8 @@ theorem reportStep_inv (am : AltMatch) (mode : Nat) (pre : List MPD) (m : MPD) (
     (heff : ∀ sc, wholeScore am m.tmpl = some sc → effPrio m sc = m.prioOrDefault)
     (hpat : ∀ pm ∈ pre, pm.tmpl.pat = m.tmpl.pat → pm.tmpl.prio = m.tmpl.prio →
         wholeScore am pm.tmpl = wholeScore am m.tmpl) :
-    RInv am mode (pre ++ [m]) (reportStep am mode s m) := by
-  unfold reportStep
+    RInv am mode (pre ++ [m]) (reportStepOld am mode s m) := by
+  unfold reportStepOld
   by_cases hmode : modeOk mode m.tmpl.mode = true
   · simp only [hmode, if_true]
     -- duplicate test
@@ -259,14 +279,14 @@ theorem reportStep_inv (am : AltMatch) (mode : Nat) (pre : List MPD) (m : MPD) (
           obtain ⟨h1, h2⟩ := hinv.prev q hq
           exact ⟨List.mem_append_left _ h1, h2⟩
         · intro hnone
-          have hpre : pre.find? (entryMatches am mode) = none := by
+          have hpre : pre.find? (entryMatchesW am mode) = none := by
             rw [List.find?_append] at hnone
-            cases hh : pre.find? (entryMatches am mode) with
+            cases hh : pre.find? (entryMatchesW am mode) with
             | none => rfl
             | some f => simp [hh] at hnone
           exact hinv.none_case hpre
         · intro f hf
-          cases hpre : pre.find? (entryMatches am mode) with
+          cases hpre : pre.find? (entryMatchesW am mode) with
           | some f' =>
             rw [find?_append_some hpre] at hf
             simp only [Option.some.injEq] at hf; subst hf
@@ -274,12 +294,12 @@ theorem reportStep_inv (am : AltMatch) (mode : Nat) (pre : List MPD) (m : MPD) (
           | none =>
             -- then `pm ∈ pre` does not match, hence `m` does not match either
             rw [find?_append_none hpre] at hf
-            have hpmno : entryMatches am mode pm = false := by
+            have hpmno : entryMatchesW am mode pm = false := by
               have := List.find?_eq_none.mp hpre pm hpm
               simpa using this
-            have : entryMatches am mode m = false := by
-              simp only [entryMatches, hpmode, Bool.true_and] at hpmno
-              simp only [entryMatches, hmode, Bool.true_and, ← hws]
+            have : entryMatchesW am mode m = false := by
+              simp only [entryMatchesW, hpmode, Bool.true_and] at hpmno
+              simp only [entryMatchesW, hmode, Bool.true_and, ← hws]
               exact hpmno
             simp [this] at hf
       · have hdup' : dupTest pm m = false := by
@@ -288,20 +308,20 @@ theorem reportStep_inv (am : AltMatch) (mode : Nat) (pre : List MPD) (m : MPD) (
         exact reportStep_inv_eval am mode pre m s hinv hsorted heff hmode
   · have hmode' : modeOk mode m.tmpl.mode = false := by simpa using hmode
     simp only [hmode', Bool.false_eq_true, if_false]
-    have hno : entryMatches am mode m = false := by simp [entryMatches, hmode']
+    have hno : entryMatchesW am mode m = false := by simp [entryMatchesW, hmode']
     refine ⟨?_, ?_, ?_⟩
     · intro q hq
       obtain ⟨h1, h2⟩ := hinv.prev q hq
       exact ⟨List.mem_append_left _ h1, h2⟩
     · intro hnone
-      have hpre : pre.find? (entryMatches am mode) = none := by
+      have hpre : pre.find? (entryMatchesW am mode) = none := by
         rw [List.find?_append] at hnone
-        cases hh : pre.find? (entryMatches am mode) with
+        cases hh : pre.find? (entryMatchesW am mode) with
         | none => rfl
         | some f => simp [hh] at hnone
       exact hinv.none_case hpre
     · intro f hf
-      cases hpre : pre.find? (entryMatches am mode) with
+      cases hpre : pre.find? (entryMatchesW am mode) with
       | some f' =>
         rw [find?_append_some hpre] at hf
         simp only [Option.some.injEq] at hf; subst hf
@@ -336,17 +356,17 @@ where
       exact ⟨List.mem_append_right _ (List.mem_singleton.mpr rfl), hmode⟩
     cases hws : wholeScore am m.tmpl with
     | none =>
-      have hno : entryMatches am mode m = false := by simp [entryMatches, hws]
+      have hno : entryMatchesW am mode m = false := by simp [entryMatchesW, hws]
       refine ⟨hprevNew, ?_, ?_⟩
       · intro hnone
-        have hpre : pre.find? (entryMatches am mode) = none := by
+        have hpre : pre.find? (entryMatchesW am mode) = none := by
           rw [List.find?_append] at hnone
-          cases hh : pre.find? (entryMatches am mode) with
+          cases hh : pre.find? (entryMatchesW am mode) with
           | none => rfl
           | some f => simp [hh] at hnone
         exact hinv.none_case hpre
       · intro f hf
-        cases hpre : pre.find? (entryMatches am mode) with
+        cases hpre : pre.find? (entryMatchesW am mode) with
         | some f' =>
           rw [find?_append_some hpre] at hf
           simp only [Option.some.injEq] at hf; subst hf
@@ -355,10 +375,10 @@ where
           rw [find?_append_none hpre] at hf
           simp [hno] at hf
     | some sc =>
-      have hyes : entryMatches am mode m = true := by simp [entryMatches, hws, hmode]
+      have hyes : entryMatchesW am mode m = true := by simp [entryMatchesW, hws, hmode]
       have hpr : (match m.tmpl.prio with | some p => p | none => sc.value) = m.prioOrDefault := heff sc hws
       simp only [hpr]
-      cases hpre : pre.find? (entryMatches am mode) with
+      cases hpre : pre.find? (entryMatchesW am mode) with
       | none =>
         obtain ⟨hb, hbp, hc⟩ := hinv.none_case hpre
         simp only [hb]
@@ -413,7 +433,7 @@ theorem foldl_reportStep_inv (am : AltMatch) (mode : Nat) (rest pre : List MPD) 
     (heff : ∀ m ∈ rest, ∀ sc, wholeScore am m.tmpl = some sc → effPrio m sc = m.prioOrDefault)
     (hpat : ∀ a ∈ pre ++ rest, ∀ b ∈ pre ++ rest, a.tmpl.pat = b.tmpl.pat → a.tmpl.prio = b.tmpl.prio →
         wholeScore am a.tmpl = wholeScore am b.tmpl) :
-    RInv am mode (pre ++ rest) (rest.foldl (reportStep am mode) s) := by
+    RInv am mode (pre ++ rest) (rest.foldl (reportStepOld am mode) s) := by
   induction rest generalizing pre s with
   | nil => simpa using hinv
   | cons m rest ih =>
